@@ -4,6 +4,7 @@ Every property is described by an entry in lib/props.py.  Nothing here is
 property specific.
 """
 import fcntl
+import glob
 import hashlib
 import json
 import os
@@ -67,17 +68,50 @@ class Lock:
 
 
 def coq_files():
+    """The development = union of coq/project.d/*.list (one .v path per line)."""
     out = []
-    for l in open(os.path.join(COQ, "_CoqProject")):
-        l = l.strip()
-        if l.endswith(".v"):
-            out.append(l)
+    for lf in sorted(glob.glob(os.path.join(COQ, "project.d", "*.list"))):
+        for l in open(lf):
+            l = l.strip()
+            if l.endswith(".v") and l not in out:
+                out.append(l)
     return out
+
+
+def write_coqproject():
+    text = "-Q . GV\n" + "\n".join(coq_files()) + "\n"
+    p = os.path.join(COQ, "_CoqProject")
+    if not os.path.exists(p) or open(p).read() != text:
+        open(p, "w").write(text)
+
+
+def families():
+    out = []
+    for jf in sorted(glob.glob(os.path.join(ROOT, "runner", "families.d", "*.json"))):
+        out.append(json.load(open(jf)))
+    return out
+
+
+def write_extract(rb):
+    fams = families()
+    reqs = sorted(set(f["require"] for f in fams))
+    v = ["(* generated from runner/families.d; ExtrOcamlBasic only *)",
+         "From Coq Require Extraction ExtrOcamlBasic.", "From Coq Require Import ZArith.",
+         "From GV Require Import Lib.Trace %s." % " ".join(reqs),
+         "Extraction Language OCaml.",
+         'Extraction "model.ml" Z.of_int Z.to_int %s.' % " ".join(f["run"] for f in fams)]
+    open(os.path.join(rb, "Extract.v"), "w").write("\n".join(v) + "\n")
+    ml = ["(* generated *)", "let table : (Stdlib.String.t * (Model.line list -> Model.line list)) list = ["]
+    for f in fams:
+        ml.append('  ("%s", Model.%s);' % (f["family"], f["run"]))
+    ml.append("]")
+    open(os.path.join(rb, "families.ml"), "w").write("\n".join(ml) + "\n")
 
 
 def coq_build(jobs=16, timeout=3000):
     """Full .vo build of the committed development (no -vos). Returns (ok, log)."""
     with Lock(os.path.join(BUILD, "coq.lock")):
+        write_coqproject()
         mk = os.path.join(COQ, "Makefile.coq")
         proj = os.path.join(COQ, "_CoqProject")
         if (not os.path.exists(mk)) or os.path.getmtime(mk) < os.path.getmtime(proj):
@@ -189,20 +223,19 @@ def ensure_runner():
     with Lock(os.path.join(BUILD, "runner.lock")):
         exe = os.path.join(BUILD, "modelrun")
         srcs = [os.path.join(COQ, f) for f in coq_files()] + \
-               [os.path.join(ROOT, "runner", f) for f in ("run.ml", "families.ml")] + \
-               [os.path.join(COQ, "Extract", "Extract.v")]
+               [os.path.join(ROOT, "runner", "run.ml")] + \
+               glob.glob(os.path.join(ROOT, "runner", "families.d", "*.json"))
         newest = max(os.path.getmtime(s) for s in srcs if os.path.exists(s))
         if os.path.exists(exe) and os.path.getmtime(exe) >= newest:
             return True, ""
         rb = os.path.join(BUILD, "runner")
         shutil.rmtree(rb, ignore_errors=True)
         os.makedirs(rb)
-        shutil.copy(os.path.join(COQ, "Extract", "Extract.v"), rb)
+        write_extract(rb)
         rc, out = run(["coqc", "-Q", COQ, "GV", "Extract.v"], cwd=rb, timeout=900)
         if rc != 0:
             return False, out
-        for f in ("run.ml", "families.ml"):
-            shutil.copy(os.path.join(ROOT, "runner", f), rb)
+        shutil.copy(os.path.join(ROOT, "runner", "run.ml"), rb)
         rc, out2 = run(["ocamlfind", "ocamlopt", "-O3", "-w", "-a", "model.mli", "model.ml",
                         "families.ml", "run.ml", "-o", "modelrun"], cwd=rb, timeout=900)
         if rc != 0:
@@ -292,13 +325,13 @@ def compare(impl_path, model_path, max_report=20):
     mismatches: list of dict(case, step, impl, model); fails: list of dict(case, site, sig, detail)."""
     mism, fails = [], []
     ncase = nobs = 0
-    model = {cid: lines for cid, _, lines in split_cases(model_path)}
+    model = {cid: lines for cid, _, lines in split_cases(model_path)} if model_path else None
     impl_cases = {}
     for cid, hdr, lines in split_cases(impl_path):
         ncase += 1
         impl_cases[cid] = lines
         io = [l for l in lines if l.startswith("obs ")]
-        mo = [l for l in model.get(cid, []) if l.startswith("obs ")]
+        mo = io if model is None else [l for l in model.get(cid, []) if l.startswith("obs ")]
         nobs += len(io)
         for l in lines:
             if l.startswith("fail "):
@@ -332,10 +365,11 @@ def compare(impl_path, model_path, max_report=20):
 
 
 def load_known():
-    p = os.path.join(ROOT, "known_findings.json")
-    if not os.path.exists(p):
-        return []
-    return json.load(open(p))
+    out = []
+    for p in [os.path.join(ROOT, "known_findings.json")] + sorted(glob.glob(os.path.join(ROOT, "known_findings.d", "*.json"))):
+        if os.path.exists(p):
+            out += json.load(open(p))
+    return out
 
 
 def match_known(pid, fail, known):
